@@ -8,9 +8,9 @@ extern "C" {
 #include "a/utf.h"
 }
 
-enum { L_CP, L_LEN2, L_LEN3, L_LEN4, L_LEN5, L_LEN6, L_BOUNDARY, L_BYTES, L_MALFORMED_REJECTED, L_MULTI_ACCEPTED, L_STRAY_CONT, L_FE_FF, L_TRUNCATED, L_LENGTH, L_LENGTH_STOPS_EARLY, L_WELLFORMED };
+enum { L_CP, L_LEN2, L_LEN3, L_LEN4, L_LEN5, L_LEN6, L_BOUNDARY, L_BYTES, L_MALFORMED_REJECTED, L_MULTI_ACCEPTED, L_STRAY_CONT, L_FE_FF, L_TRUNCATED, L_LENGTH, L_LENGTH_STOPS_EARLY, L_WELLFORMED, L_TEXT, L_TEXT_NUL };
 static char const *const labels[] = {"code_point_round_trip", "len2", "len3", "len4", "len5", "len6", "length_boundary_code_point", "arbitrary_bytes", "malformed_rejected",
-                                     "multibyte_accepted", "stray_continuation_lead", "lead_FE_or_FF", "truncated_sequence", "length_counter", "length_counter_stops_before_end", "wellformed_string", nullptr};
+                                     "multibyte_accepted", "stray_continuation_lead", "lead_FE_or_FF", "truncated_sequence", "length_counter", "length_counter_stops_before_end", "wellformed_string", "mostly_ascii_text_up_to_256_code_points", "text_with_embedded_nul", nullptr};
 static char const *const metrics[] = {nullptr};
 static uint8_t const dict[] = {0xC0, 0xC2, 0xDF, 0xE0, 0xEF, 0xF0, 0xF7, 0xF8, 0xFB, 0xFC, 0xFD, 0xFE, 0xFF, 0x80, 0xBF, 0x00};
 static vp_info const info = {"C18", "utf8", "", labels, metrics, 64, dict, sizeof(dict)};
@@ -88,7 +88,7 @@ static uint32_t gen_cp(Tape &t, Ctx &cx)
 static void run_case(Tape &t, Ctx &cx)
 {
     ++cx.rep->subcases;
-    uint8_t mode = t.u8() % 4;
+    uint8_t mode = t.u8() % 5;
     std::vector<uint8_t *> blocks;
     struct Free { std::vector<uint8_t *> &b; ~Free() { for (auto p : b) { free(p); } } } fr{blocks};
     auto place = [&](unsigned n) {
@@ -96,6 +96,67 @@ static void run_case(Tape &t, Ctx &cx)
         blocks.push_back(p);
         return p;
     };
+    // length counter oracle: advances by exactly the lengths the decoder reports, stops at the first NUL / undecodable byte
+    auto check_length = [&](uint8_t const *p, size_t num) {
+        size_t pos = 0, cnt = 0;
+        for (;;)
+        {
+            uint8_t *q = place(unsigned(num - pos));
+            memcpy(q, p + pos, num - pos);
+            unsigned r = a_utf_decode(q, num - pos, nullptr);
+            free(blocks.back());
+            blocks.pop_back();
+            if (!r) { break; }
+            pos += r;
+            ++cnt;
+            VP_CHECK(cx, pos <= num, "decode:more_than_available", "successive decodes ran past the stated length");
+        }
+        a_size stop = 12345;
+        a_size got = a_utf_length(p, num, &stop);
+        a_size got2 = a_utf_length(p, num, nullptr);
+        cx.label(L_LENGTH);
+        if (pos < num) { cx.label(L_LENGTH_STOPS_EARLY); }
+        VP_CHECK(cx, got == cnt && got2 == cnt, "length:count", "a_utf_length counts %zu/%zu characters, successive decodes give %zu", (size_t)got, (size_t)got2, cnt);
+        VP_CHECK(cx, stop == pos, "length:stop", "a_utf_length stops after %zu bytes, successive decodes consume %zu", (size_t)stop, pos);
+        return pos;
+    };
+    if (mode == 4)
+    {
+        // text: up to 256 code points, mostly ASCII, some multi-byte, embedded NULs before the stated end (an exhausted
+        // tape continues with spaces, so short tapes still give long runs)
+        unsigned k = 1 + t.u8();
+        std::vector<uint8_t> s;
+        unsigned nuls = 0;
+        for (unsigned i = 0; i < k; ++i)
+        {
+            uint8_t b = t.u8();
+            if (b < 224) { s.push_back(uint8_t(0x20 + b % 95)); }
+            else if (b < 236) { s.push_back(0); ++nuls; }
+            else
+            {
+                uint8_t e[8];
+                unsigned n = ref_encode(gen_cp(t, cx), e);
+                s.insert(s.end(), e, e + n);
+            }
+        }
+        if (t.coin()) { s[t.u16() % s.size()] = 0; ++nuls; }
+        unsigned cut = t.u8() % 4 == 0 ? t.u16() % (unsigned(s.size()) + 1) : unsigned(s.size());
+        uint8_t *p = place(cut);
+        memcpy(p, s.data(), cut);
+        cx.hash.addb(p, cut);
+        cx.label(L_TEXT);
+        if (nuls) { cx.label(L_TEXT_NUL); }
+        if (cut >= 32) { cx.rep->nontrivial = true; }
+        if (cx.rep->want_render)
+        {
+            cx.log("text[%u]:", cut);
+            for (unsigned i = 0; i < cut; ++i) { cx.log(" %02x", p[i]); }
+            cx.log("\n");
+        }
+        check_length(p, cut);
+        (void)a_utf_length_(p, cut);
+        return;
+    }
     if (mode == 0)
     {
         uint32_t cp = gen_cp(t, cx);
@@ -171,26 +232,8 @@ static void run_case(Tape &t, Ctx &cx)
                 VP_CHECK(cx, !ok, "decode:wellformed_rejected", "a complete %u-byte sequence with proper continuation bytes was rejected", need);
             }
         }
-        // length counter: advances by exactly the lengths the decoder reports, stops at the first NUL / undecodable byte
         {
-            size_t pos = 0, cnt = 0;
-            for (;;)
-            {
-                uint8_t *q = place(unsigned(num - pos));
-                memcpy(q, p + pos, num - pos);
-                unsigned r = a_utf_decode(q, num - pos, nullptr);
-                if (!r) { break; }
-                pos += r;
-                ++cnt;
-                VP_CHECK(cx, pos <= num, "decode:more_than_available", "successive decodes ran past the stated length");
-            }
-            a_size stop = 12345;
-            a_size got = a_utf_length(p, num, &stop);
-            a_size got2 = a_utf_length(p, num, nullptr);
-            cx.label(L_LENGTH);
-            if (pos < num) { cx.label(L_LENGTH_STOPS_EARLY); }
-            VP_CHECK(cx, got == cnt && got2 == cnt, "length:count", "a_utf_length counts %zu/%zu characters, successive decodes give %zu", (size_t)got, (size_t)got2, cnt);
-            VP_CHECK(cx, stop == pos, "length:stop", "a_utf_length stops after %zu bytes, successive decodes consume %zu", (size_t)stop, pos);
+            check_length(p, num);
             // unchecked counter: memory safety only on arbitrary input
             (void)a_utf_length_(p, num);
         }
